@@ -268,7 +268,7 @@ func randIP(r *gen.Rand) net.IP {
 // step applies one random building operation. Returns false to stop the sequence.
 func (s *c03State) step() bool {
 	r, m := s.r, s.m
-	switch r.Intn(31) {
+	switch r.Intn(34) {
 	case 0, 1, 2, 3: // Add
 		t := r.AttrType()
 		n := r.ValueLen(3000)
@@ -754,10 +754,46 @@ func (s *c03State) step() bool {
 		m.Add(0x0013, v)
 		s.attrs = append(s.attrs, shAttr{typ: 0x0013, wire: 0x0013, val: v, built: true})
 		s.trail = false
+	case 31: // through encoding/gob (GobEncode/GobDecode) into another Message, continue on that one
+		s.op("gob round trip")
+		var buf bytes.Buffer
+		dst := new(stun.Message)
+		if r.Bool() {
+			_ = dst.Build(stun.BindingRequest, stun.NewSoftware("old content of the gob target"))
+		}
+		if err := gob.NewEncoder(&buf).Encode(m); err != nil {
+			s.fail("gob", "gob encoding of a built message failed: "+err.Error())
+
+			return false
+		}
+		if err := gob.NewDecoder(&buf).Decode(dst); err != nil {
+			s.fail("gob", "gob decoding of a built message failed: "+err.Error())
+
+			return false
+		}
+		s.m = dst
+		for i := range s.attrs {
+			s.attrs[i].typ = compat(s.attrs[i].wire)
+		}
+		s.aliasAdded = false
+	case 32: // WriteTo hands out exactly the raw bytes
+		s.op("WriteTo")
+		var buf bytes.Buffer
+		n, err := m.WriteTo(&buf)
+		if err != nil || int(n) != len(m.Raw) || !bytes.Equal(buf.Bytes(), m.Raw) {
+			s.fail("writeto", fmt.Sprintf("WriteTo wrote %d bytes (err %v), Raw has %d", n, err, len(m.Raw)))
+
+			return false
+		}
 	default: // WriteLength / WriteType / WriteTransactionID are idempotent on a consistent message
 		s.op("WriteLength+WriteTransactionID")
 		m.WriteLength()
 		m.WriteTransactionID()
+		if r.Bool() {
+			s.op("WriteType")
+			m.WriteType()
+			s.lead = 0 // the type word is rewritten from the struct: leading bits of a decoded start are gone
+		}
 	}
 
 	return s.check()
@@ -782,6 +818,13 @@ func c03(c *core.Ctx) {
 			s.m = new(stun.Message)
 			s.op("new;Build()")
 			_ = s.m.Build()
+			if r.Bool() {
+				s.op("stun.Build()")
+				var err error
+				if s.m, err = stun.Build(); err != nil {
+					fatalHarness("stun.Build(): " + err.Error())
+				}
+			}
 		case 1: // WriteHeader / Encode on a fresh or pre-allocated message
 			if r.Bool() {
 				s.m = new(stun.Message)
